@@ -103,14 +103,14 @@ func c17Entries(list string) []c17Entry {
 				g.UsedNoncesList = append(g.UsedNoncesList, cctptypes.Nonce{SourceDomain: d, Nonce: n})
 			}}
 		}
-		return []c17Entry{mk(0, 1), mk(0, 1), mk(0xFF000002, 2), mk(1<<32-1, 1<<64-1)}
+		return []c17Entry{mk(0, 1), mk(0, 1), mk(3, 0), mk(1<<32-1, 1<<64-1)} // a zero nonce after a non-zero one; the highest domain
 	case "messengers":
 		mk := func(d uint32, a []byte) c17Entry {
 			return c17Entry{fmt.Sprint(d), func(g *cctptypes.GenesisState) {
 				g.TokenMessengerList = append(g.TokenMessengerList, cctptypes.RemoteTokenMessenger{DomainId: d, Address: a})
 			}}
 		}
-		return []c17Entry{mk(0, X), mk(0, Y), mk(1, X), mk(256, X)}
+		return []c17Entry{mk(0, X), mk(0, Y), mk(1, X), mk(256, nil)} // an entry whose address field is empty (omitted on the wire)
 	}
 	return nil
 }
